@@ -86,15 +86,24 @@ CLAIMED.update({
            'length) of the old buffer (shared with snapshots) are never written, the prefix is preserved across reallocation, the invariant is re-established.',
            'The builder tree, from_iter and LayoutBuilder (value reproduction) are outside. kernel::malloc stubbed (fresh exact-size buffer), resize in [1.5, 16] '
            '(thorough adds (1, 1.5]).', 'DESIGN.md section 3 (C14)', 'SMT bounded model checking of C++ method LLVM IR (llbmc M-harness, z3 FP); native ASan replay'),
- 'C18': mc('Narrow claim (partition position arithmetic only): IrregularlyPartitionedArray::partitionid_index_at from its IR for every non-decreasing stops '
-           'vector of <= 4 (thorough 6) partitions, empty ones included, and every 64-bit position: first containing partition, local index = position - start.',
-           'VirtualArray, caches, generators, repartition and partition.py are not addressed.', 'DESIGN.md section 3 (C18)',
-           'SMT bounded model checking of C++ method LLVM IR (llbmc M-harness); native replay'),
- 'C19': mc('Interpreter core: one instruction of ForthMachineOf<T,int32>::internal_run (T = int32, int64) from an arbitrary well-formed machine state for 34 '
-           'stack/arithmetic/comparison/bitwise words against the documented semantics (floored / mod, wrap-around, documented errors), and '
-           'ForthInputBuffer::read/seek/skip for every 64-bit argument; counterexamples are replayed through the real compiler and interpreter.',
-           'Tokenizer/compiler/decompiler, control words, typed reads/writes, output buffers and pause/resume are outside. Struct layout from the IR type table.',
-           'DESIGN.md section 3 (C19)', 'SMT bounded model checking of C++ method LLVM IR (llbmc M-harness); native replay through the real interpreter'),
+ 'C18': mc('Partitioned arrays only: (a) IrregularlyPartitionedArray::partitionid_index_at from its IR for every non-decreasing stops vector of <= 4 (thorough 6) '
+           'partitions, empty ones included, and every 64-bit position; (b) PartitionedArray::getitem_range(start, stop, step) (regularize_rangeslice + '
+           'getitem_range_nowrap) and getitem_at from their IR on an IrregularlyPartitionedArray whose partitions are opaque contents: the virtual calls on the '
+           'partitions are observation points obeying the CPython-slice contract, every content carries the global positions it stands for, and the pushed result '
+           'partitions / stops are compared element by element with range(*slice.indices(total)) of the concatenation, for any int64 start/stop (None included); '
+           'partition lengths and step are case-split (quick: <= 3 partitions, lengths 0..4, |step| <= 3; thorough: <= 4 partitions, lengths 0..5, |step| <= 5).',
+           'VirtualArray, ArrayGenerator, caches, repartition, toContent and partition.py are not addressed. Stubs: Slice/SliceRange bookkeeping, vector push_back, '
+           'shared_ptr control blocks (null), string building.', 'DESIGN.md sections 3 (C18) and 9.5',
+           'SMT bounded model checking of C++ method LLVM IR (llbmc M-harness, observation stubs for opaque partitions); native test-double replay'),
+ 'C19': mc('Interpreter: (a) one instruction of ForthMachineOf<T,int32>::internal_run (T = int32, int64) from an arbitrary well-formed machine state for 34 '
+           'stack/arithmetic/comparison/bitwise words against the documented semantics (floored / mod, wrap-around, documented errors); (b) '
+           'ForthInputBuffer::read/seek/skip for every 64-bit argument (exact outcome); (c) typed output writes; (d) whole programs: ~45 templates with do/loop/+loop, '
+           'nested loops, if/else, begin/until/while/again, user words with exit, halt, variables, typed little/big-endian and repeated reads, seek/skip, compiled by the '
+           'repository compiler and run through the real step() / resume() from the IR on symbolic stack cells and input bytes: final stack, variables, input position '
+           'and error equal the documented result, and one uninterrupted run, repeated single steps and the same program with pause words resumed until done agree.',
+           'Tokenizer/compiler/decompiler are exercised only on the concrete templates; float / nbit / varint / textual reads and output writes at program level, and '
+           'recursion-limit faults are outside. Case guards fix trip counts (<= 4) and branch outcomes; other values symbolic. Struct layout from the IR type table.',
+           'DESIGN.md sections 3 (C19) and 9.5', 'SMT bounded model checking of C++ method LLVM IR (llbmc M-harness); native replay through the real compiler and interpreter'),
 })
 
 NOT_APPLICABLE = {
